@@ -170,8 +170,21 @@ def oracle_clip(case):
             "counts": {"clipped_entries": int(clipped.sum())}}
 
 
+@st.composite
+def huge_case(draw):
+    gs = draw(objs.gemini_spec(bases=("tv", "kl", "hellinger", "chi2")))
+    kind = draw(st.sampled_from(["rows", "rows_x_clusters"]))
+    if kind == "rows":
+        p = draw(gens.p_spec(n_min=1025, n_max=2400, k_min=2, k_max=4, scales=[0.5, 2.0, 8.0]))
+    else:
+        p = draw(gens.p_spec(n_min=660, n_max=1500, k_min=26, k_max=40, scales=[0.5, 2.0, 8.0]))
+    return {"g": gs, "p": p, "x": draw(gens.x_spec(d_max=2, kinds=("normal",))), "dseed": draw(gens.seeds), "mode": "random",
+            "eps": draw(st.sampled_from([1e-12, 1e-3]))}
+
+
 def subs():
     return [
+        Sub("huge_shapes", huge_case(), oracle_deriv, 24, 300, "n beyond 1024 rows / n*K^2 beyond 2^20 (blocked code paths)"),
         Sub("logit_random", rand_case(), oracle_deriv, 6000, 120000, "4 random simplex directions per case"),
         Sub("logit_coords", coord_case(), oracle_deriv, 1500, 30000, "all coordinate directions, n<=4, K<=3"),
         Sub("shape_and_clip", clip_case(), oracle_clip, 4000, 60000, "exact 0/1 entries and entries below epsilon"),
